@@ -249,7 +249,20 @@ class Check:
         self.audit()
         for p in extra_props:
             self.audit(p)
+        if ok and self.tier == 'thorough':
+            self.leanchecker(mods)
         return ok
+
+    def leanchecker(self, mods):
+        """Thorough tier: the toolchain's independent re-checker replays the compiled property modules (and
+        everything they import) through the kernel."""
+        t0 = time.time()
+        p = subprocess.run(['lake', 'env', 'leanchecker'] + mods, cwd=LEAN_DIR, capture_output=True, text=True)
+        self.stats['leanchecker_s'] = round(time.time() - t0, 1)
+        self.stats['leanchecker_exit'] = p.returncode
+        if p.returncode != 0:
+            self.broken.append({'kind': 'audit', 'name': 'leanchecker ' + ' '.join(mods),
+                                'detail': (p.stdout + p.stderr)[-800:]})
 
     # ------------------------------------------------------------------ driver
     def driver(self, requests, chunk=None):
